@@ -158,16 +158,21 @@ func (x *Exec) special(s *State, fr *Frame, fn *types.Func, name string, recv Va
 		}
 		ma := x.ctx.Share(x.inner(s, "uint8", BV(8), a.Rgn))
 		mb := x.ctx.Share(x.inner(s, "uint8", BV(8), b.Rgn))
-		// a function of the two byte sequences: equal arguments give equal results
-		r := x.ctx.Share(x.ctx.UF("commonprefix", SBV64, ma, a.Off, a.Len, mb, b.Off, b.Len))
-		s.assume(Sle(I64(0), r))
-		s.assume(Sle(r, a.Len))
-		s.assume(Sle(r, b.Len))
-		x.ctx.n++
-		i := fmt.Sprintf("i?%d", x.ctx.n)
-		at := func(m, p Term, idx string) string { return fmt.Sprintf("(select %s (bvadd %s %s))", m.S, p.S, idx) }
-		s.assume(Term{S: fmt.Sprintf("(forall ((%s (_ BitVec 64))) (=> (and (bvsle (_ bv0 64) %s) (bvslt %s %s)) (= %s %s)))", i, i, i, r.S, at(ma, a.Off, i), at(mb, b.Off, i)), Sort: SBool})
-		s.assume(Implies(And(Slt(r, a.Len), Slt(r, b.Len)), Ne(Term{S: at(ma, a.Off, r.S), Sort: BV(8)}, Term{S: at(mb, b.Off, r.S), Sort: BV(8)})))
+		// a function of the two byte sequences; its defining facts travel with the symbol
+		key := "commonprefix|" + ma.S + "|" + a.Off.S + "|" + a.Len.S + "|" + mb.S + "|" + b.Off.S + "|" + b.Len.S
+		r, ok := x.defined[key]
+		if !ok {
+			r = x.ctx.Fresh("commonprefix", SBV64)
+			i := x.boundName("i")
+			at := func(m, p Term, idx string) string { return fmt.Sprintf("(select %s (bvadd %s %s))", m.S, p.S, idx) }
+			facts := And(
+				Implies(And(Sle(I64(0), a.Len), Sle(I64(0), b.Len)), And(Sle(I64(0), r), Sle(r, a.Len), Sle(r, b.Len))),
+				Term{S: fmt.Sprintf("(forall ((%s (_ BitVec 64))) (=> (and (bvsle (_ bv0 64) %s) (bvslt %s %s)) (= %s %s)))", i, i, i, r.S, at(ma, a.Off, i), at(mb, b.Off, i)), Sort: SBool},
+				Implies(And(Slt(r, a.Len), Slt(r, b.Len)), Ne(Term{S: at(ma, a.Off, r.S), Sort: BV(8)}, Term{S: at(mb, b.Off, r.S), Sort: BV(8)})),
+			)
+			x.ctx.AddAxiom("pre:def:"+r.S, []string{r.S}, facts.S)
+			x.defined[key] = r
+		}
 		return &Scalar{T: r}, true
 	case name == "sort.Search":
 		// Assumed contract (holds for every predicate, monotone or not, by the binary-search
@@ -317,22 +322,29 @@ func (x *Exec) bytesEqual(s *State, a, b *SliceV) Term {
 func (x *Exec) bytesCompare(s *State, a, b *SliceV) Term {
 	ma := x.ctx.Share(x.inner(s, "uint8", BV(8), a.Rgn))
 	mb := x.ctx.Share(x.inner(s, "uint8", BV(8), b.Rgn))
+	key := "bytescmp|" + ma.S + "|" + a.Off.S + "|" + a.Len.S + "|" + mb.S + "|" + b.Off.S + "|" + b.Len.S
+	if r, ok := x.defined[key]; ok {
+		return r
+	}
 	r := x.ctx.Fresh("bytescmp", SBV64)
 	k := x.ctx.Fresh("bytescmp$k", SBV64) // length of the common prefix
 	at := func(m, p Term, i string) string { return fmt.Sprintf("(select %s (bvadd %s %s))", m.S, p.S, i) }
-	x.ctx.n++
-	i := fmt.Sprintf("i?%d", x.ctx.n)
-	s.assume(Sle(I64(0), k))
-	s.assume(Sle(k, a.Len))
-	s.assume(Sle(k, b.Len))
-	s.assume(Term{S: fmt.Sprintf("(forall ((%s (_ BitVec 64))) (=> (and (bvsle (_ bv0 64) %s) (bvslt %s %s)) (= %s %s)))", i, i, i, k.S, at(ma, a.Off, i), at(mb, b.Off, i)), Sort: SBool})
+	i := x.boundName("i")
 	ak := Term{S: at(ma, a.Off, k.S), Sort: BV(8)}
 	bk := Term{S: at(mb, b.Off, k.S), Sort: BV(8)}
 	endA, endB := Eq(k, a.Len), Eq(k, b.Len)
-	s.assume(Implies(And(Not(endA), Not(endB)), Ne(ak, bk)))
 	lt := Or(And(endA, Not(endB)), And(Not(endA), Not(endB), Ult(ak, bk)))
 	eq := And(endA, endB)
-	s.assume(Eq(r, Ite(eq, I64(0), Ite(lt, I64(-1), I64(1)))))
+	// the defining facts travel with the result symbol (they hold in every state, also when
+	// the comparison occurs inside a contract expression)
+	facts := And(
+		Implies(And(Sle(I64(0), a.Len), Sle(I64(0), b.Len)), And(Sle(I64(0), k), Sle(k, a.Len), Sle(k, b.Len))),
+		Term{S: fmt.Sprintf("(forall ((%s (_ BitVec 64))) (=> (and (bvsle (_ bv0 64) %s) (bvslt %s %s)) (= %s %s)))", i, i, i, k.S, at(ma, a.Off, i), at(mb, b.Off, i)), Sort: SBool},
+		Implies(And(Not(endA), Not(endB)), Ne(ak, bk)),
+		Eq(r, Ite(eq, I64(0), Ite(lt, I64(-1), I64(1)))),
+	)
+	x.ctx.AddAxiom("pre:def:"+r.S, []string{r.S}, facts.S)
+	x.defined[key] = r
 	return r
 }
 
